@@ -12,8 +12,8 @@ const (
 
 var (
 	ProviderKeyPrefix         = []byte{0x10}
-	ActiveProviderKeyPrefix   = append(ProviderKeyPrefix, 0x01)
-	InactiveProviderKeyPrefix = append(ProviderKeyPrefix, 0x02)
+	ActiveProviderKeyPrefix   = []byte{0x10, 0x01}
+	InactiveProviderKeyPrefix = []byte{0x10, 0x02}
 )
 
 func ActiveProviderKey(addr hubtypes.ProvAddress) []byte {
